@@ -10,6 +10,9 @@ New theory symbols (every axiom group is exercised by lemmas/spotcheck.py throug
   lch(Ms, m)    = [[1]] @ Ms[0] @ ... @ Ms[m-1]          left partial product of a sequence of matrices   (lch(Ms, 0) = [[1]])
   rch(Ms, k, d) = Ms[k] @ ... @ Ms[d-1] @ [[1]]          right partial product                             (rch(Ms, d, d) = [[1]])
   cnorm(a)      = np.linalg.norm(a)                      Frobenius norm of a matrix / 2-norm of a column
+  cslput(G,k,a) = G with G[:, k, :] replaced by a        slice assignment (get_and_grad)
+  nonsing(a)    = a is square and non-singular           domain of np.linalg.solve (core_dot_inv)
+and the datatype OptMat = none | some(Mat) for lists of optional vectors (no axioms: z3's datatype theory).
 """
 import ast
 import z3
@@ -261,6 +264,7 @@ def iteration(ex, st, it, node):
         v = st.vars.get(it.id)
         if isinstance(v, VRef) and isinstance(st.heap.get(v.oid), VSeq) and st.heap[v.oid].tag == 'core':
             oid = v.oid
+            used('for G in list_of_arrays -> G is the array object that is in the list at that moment (an alias: writes into G are writes into the list)')
 
             def bind(ex_, st_, j, oid=oid):
                 g = st_.heap[oid].get(j)            # the array that is in the list NOW (the list may be written to by the loop body)
